@@ -92,6 +92,11 @@ type Check struct {
 	// HistoryProbe: sampled runs are repeated in a fresh process and their notes
 	// compared: the run must not depend on the runs the worker executed before
 	HistoryProbe bool
+	// AgedWorker: the last worker never applies the per-run reset of the known
+	// process-wide tables and probes its history often: the process ages like a
+	// long-lived server (thousands of configurations loaded and dropped)
+	AgedWorker bool
+	Age        func() int // optional: what the aged worker does once before its first run; returns how many ageing steps succeeded
 	Run          func(w *verifrt.World, tier Tier) *RunResult
 	Prepare      func(scratch string) error // parent-side set-up before workers start
 	Runs         [2]int                     // run budget per tier (total over all workers)
@@ -126,6 +131,7 @@ type ReplayFile struct {
 	// and that must be repeated first (only set when the violation depends on
 	// state that survives outside every WAF instance).
 	Prelude []uint64 `json:"prelude,omitempty"`
+	NoReset bool     `json:"no_reset,omitempty"` // the prelude and the run execute without the per-run reset of process-wide tables
 }
 
 type foundViolation struct {
@@ -136,6 +142,7 @@ type foundViolation struct {
 	Base  uint64              `json:"base"` // batch seed, worker index and run index: rs = Mix(Base, Idx<<40|K)
 	Idx   int                 `json:"idx"`
 	K     int                 `json:"k"`
+	Aged  bool                `json:"aged,omitempty"` // found by the aged worker (no per-run reset)
 }
 
 type workerOut struct {
@@ -242,12 +249,20 @@ func raceFingerprint(report string) (fp string, inSim bool) {
 }
 
 // execRun runs one scenario of c in world w with panic capture.
+// noReset: this process does not reset the known process-wide tables between
+// runs (aged worker, and replays of what it found); spawnNoReset asks the same
+// of the replay processes the parent starts.
+var noReset, spawnNoReset bool
+
 func execRun(c *Check, w *verifrt.World, tier Tier) (res *RunResult) {
 	verifrt.Install(w)
 	simos.ResetEnv()
-	// every run starts from the process-wide state of a fresh process
-	memoize.VerifResetGlobals()
-	corazawaf.VerifResetGlobals()
+	// every run starts from the process-wide state of a fresh process (except in
+	// the aged worker, where the process keeps what earlier runs left)
+	if !noReset {
+		memoize.VerifResetGlobals()
+		corazawaf.VerifResetGlobals()
+	}
 	verifrt.LiveReset()
 	defer func() {
 		if r := recover(); r != nil {
@@ -290,6 +305,14 @@ func workerMain(c *Check, tier Tier, seed uint64, idx, nworkers, runs int, maxSe
 	il := map[uint64]bool{}
 	pr := map[uint64]bool{}
 	debug.SetGCPercent(400)
+	noReset = c.AgedWorker && nworkers > 1 && idx == nworkers-1
+	if noReset {
+		out.Counters["aged_worker"] = 1
+		if c.Age != nil {
+			verifrt.Install(verifrt.NewWorld(verifrt.Mix(seed, 0xa9ed)))
+			out.Counters["aged_steps_ok"] = int64(c.Age())
+		}
+	}
 	for k := 0; k < runs; k++ {
 		if time.Since(start).Seconds() > float64(maxSec) {
 			break
@@ -298,7 +321,7 @@ func workerMain(c *Check, tier Tier, seed uint64, idx, nworkers, runs int, maxSe
 		w := verifrt.NewWorld(rs)
 		res := execRun(c, w, tier)
 		out.Runs++
-		if c.HistoryProbe && probeHistoryAt(k) {
+		if c.HistoryProbe && (probeHistoryAt(k) || noReset && k%4 == 3) {
 			historyProbe(c, tier, rs, res, filepath.Dir(outPath), k)
 		}
 		if os.Getenv("VSIM_SELFCHECK") != "" {
@@ -340,7 +363,7 @@ func workerMain(c *Check, tier Tier, seed uint64, idx, nworkers, runs int, maxSe
 			if len(out.Found) >= 12 {
 				continue
 			}
-			out.Found[v.Fingerprint] = &foundViolation{V: v, Seed: rs, Tapes: w.Tapes(), Count: 1, Base: seed, Idx: idx, K: k}
+			out.Found[v.Fingerprint] = &foundViolation{V: v, Seed: rs, Tapes: w.Tapes(), Count: 1, Base: seed, Idx: idx, K: k, Aged: noReset}
 		}
 		if res.Tainted {
 			// process state may be corrupted; stop this worker (the parent
@@ -415,6 +438,10 @@ func historyProbe(c *Check, tier Tier, seed uint64, res *RunResult, scratch stri
 func probeHistoryAt(k int) bool { return k > 0 && (k&(k-1) == 0 || k%97 == 0) }
 
 func replayOnce(c *Check, tier Tier, seed uint64, tapes map[string][]uint32, prelude ...uint64) *replayOut {
+	if noReset && c.Age != nil {
+		verifrt.Install(verifrt.NewWorld(1))
+		c.Age()
+	}
 	for _, ps := range prelude {
 		execRun(c, verifrt.NewWorld(ps), tier)
 	}
@@ -433,7 +460,7 @@ func replayOnce(c *Check, tier Tier, seed uint64, tapes map[string][]uint32, pre
 
 // spawnReplay runs `vsim replayjson` in a fresh process.
 func spawnReplay(c *Check, tier Tier, seed uint64, tapes map[string][]uint32, scratch string, prelude ...uint64) (*replayOut, error) {
-	in, _ := json.Marshal(map[string]any{"seed": seed, "tapes": tapes, "prelude": prelude})
+	in, _ := json.Marshal(map[string]any{"seed": seed, "tapes": tapes, "prelude": prelude, "noreset": spawnNoReset && len(prelude) > 0})
 	cmd := exec.Command(os.Args[0], "replayjson", c.ID, tier.String())
 	cmd.Stdin = bytes.NewReader(in)
 	var stdout, stderr bytes.Buffer
@@ -775,6 +802,7 @@ func parentMain(c *Check, tier Tier, seed uint64, nworkers int, evidencePath, re
 			// survives outside every WAF instance (a package-level cache or free list
 			// introduced by a change) makes a run depend on its predecessors in the
 			// process; that history is then part of the replay file.
+			spawnNoReset = f.Aged
 			for m := 1; cv == nil && f.K > 0; m = 2*m + 1 {
 				if m > f.K {
 					m = f.K
@@ -835,6 +863,7 @@ func parentMain(c *Check, tier Tier, seed uint64, nworkers int, evidencePath, re
 		rf := &ReplayFile{Property: c.ID, Tier: tier.String(), Seed: f.Seed, Fingerprint: fp, Clause: v.Clause, Detail: v.Detail,
 			Tapes: fin.Tapes, Scenario: fin.Scenario, Minimised: minimised, ShrinkTries: tries}
 		if prelude != nil {
+			rf.NoReset = f.Aged
 			rf.Prelude = append([]uint64(nil), prelude...)
 			rf.Note = fmt.Sprintf("reproduces only after the %d preceding runs of the same process (prelude): the outcome depends on state that survives outside every WAF instance", len(prelude))
 		}
